@@ -33,7 +33,11 @@ RULE = ("strings over {a,b,c,' '} (length <= 7) plus Unicode samples (astral, co
         "repetition counts and text lengths sweeping getsizeof(result) = quota from both sides, calls that fit must give "
         "the model's value; kinds of the collection results (raw type under convertOutputData=false, finalised type under "
         "the 4 output-option combinations and the legacy engine) and their use as values (=, indexOf, in, distinct, toSet, "
-        "dict key, groupBy); non-trivial = not the empty string and (for index functions) a negative or past-the-end argument or "
+        "dict key, groupBy); every registry function with an injected Delegate (join in both spellings, with eager and lazy "
+        "sequences, replace(dict), str) also in a child context whose host overrides str(); every string call also with its "
+        "string operands delivered as instances of str subclasses (method-overriding, Markup-like escaping, __str__-overriding) "
+        "as $ data with conversion on/off, as context variable and as host function result - value of the plain text, exact "
+        "type plain str; non-trivial = not the empty string and (for index functions) a negative or past-the-end argument or "
         "a hit, (for regex) at least one match with at least one group; distinct = distinct call")
 TRUSTED = ["Model/Strings.v transcribes CPython's str.find/rfind/slice/split/rsplit/strip/replace/join semantics and "
            "the yaql wrappers of strings.py; tied by this correspondence",
